@@ -72,7 +72,8 @@ def run_bin(path, args=(), timeout=300, inp=None):
 
 
 def workdir(pid):
-    d = os.path.join(core.BUILD, "progs_" + pid)
+    # one directory per property and generator tier (a quick and a thorough run may overlap)
+    d = os.path.join(core.BUILD, "progs_" + pid + "_" + os.environ.get("KV_GEN_TIER", "quick"))
     shutil.rmtree(d, ignore_errors=True)
     os.makedirs(d)
     return d
